@@ -247,6 +247,19 @@ def r3_build(run, F):
     cs = [hirq.callee(c) for c in hirq.calls(bh["hir"])]
     run.ob("R3-DECLARATIONS", "build_header", PN + "::is_declaration" in cs and PT + "ParseTree::build_header_nodes" in cs, F.where(bh),
            "build_header must rebuild the declaration index with is_declaration over the converted nodes")
+    # ... over EVERY converted node: the scan is a plain `for (i, node) in nodes.iter().enumerate()`; a hand-written index
+    # that jumps ahead skips declarations that are shorter than the jump (an import has three nodes)
+    from rules import origins
+    isd = [c for c in hirq.calls(bh["hir"]) if hirq.callee(c) == PN + "::is_declaration"]
+    ok_scan = False
+    det = "is_declaration call not found"
+    if len(isd) == 1:
+        o = origins.origins(bh["hir"], isd[0].get("recv") or isd[0]["a"][0], bh.get("params", ()))
+        calls = sorted(x[1].split("::")[-1] for x in o if x[0] == "call")
+        steps = [n for n in walk(bh["hir"]) if n.get("k") == "AssignOp"]
+        ok_scan = "enumerate" in calls and "iter" in calls and "index" not in calls and not steps
+        det = "tested node comes from %s; hand-written index updates: %d" % (calls, len(steps))
+    run.ob("R3-DECLARATIONS", "build_header scans every node", ok_scan, F.where(bh), det)
     asserts = [c for c in hirq.calls(bh["hir"]) if hirq.panic_kind(c) == "assert"]
     run.ob("R3-NO-ERRORS-PRECONDITION", "build_header", len(asserts) >= 1, F.where(bh),
            "build_header asserts errors.is_empty(): an open zone only exists after a parse error")
